@@ -32,9 +32,10 @@ type Case struct {
 }
 
 type run struct {
-	ctx       *hk.RunCtx
-	known     map[string]bool
-	curShapes []string // known-finding shapes of the case being run
+	ctx        *hk.RunCtx
+	known      map[string]bool
+	curShapes  []string // known-finding shapes of the case being run
+	curTableGB []string // Data.keptNames() of the case being run
 }
 
 func (e *run) hit(k string) { e.ctx.Res.Hit(k) }
@@ -108,6 +109,11 @@ func (Engine) Run(ctx *hk.RunCtx) error {
 			data, q, cl = genOverlap(r)
 			e.hit("class:overlapping-select-expressions")
 			e.hit("overlap:" + cl)
+		} else if c < 12 {
+			var cl string
+			data, q, cl = genTableGB(r)
+			e.hit("class:table-group-by")
+			e.hit("table-group-by:" + cl)
 		} else {
 			data = genData(r)
 			q = genQuery(r, data)
@@ -388,6 +394,7 @@ func (e *run) runCase(c Case, idx uint64) error {
 	}
 
 	e.curShapes = e.matchShapes(c, w, local, cluster, calls)
+	e.curTableGB = c.Data.keptNames()
 	var order []Ord
 	limited := false
 	var localFull *Outcome
